@@ -2,7 +2,10 @@
 """Maintenance helper (not a check): run every quick check against every stored seed / refactoring and
 regenerate sa/selftest/variants/seeded.json from what was observed.
 
-usage: tools_seed_regress.py [--write] [ID ...]
+usage: tools_seed_regress.py [--write] [--merge] [ID ...]
+  --merge with IDs: only those stored changes are run, and their entries replace / extend seeded.json
+  --props=C12,C18 : run only those checks over the chosen changes and compare with what seeded.json records
+                    (nothing is written); for a change confined to one property's rules
 Each stored change is applied to a scratch copy of /repo under a temporary directory (removed afterwards);
 /repo itself is never touched.  Rules for the expectations written:
   seeds (seeded/Cxx, -rN)  : the property the change was seeded for MUST be reported (rc 1) - or, for the
@@ -22,6 +25,32 @@ PROPS = [f"C{i:02d}" for i in range(1, 20)]
 UNKNOWN_FORM_SEEDS = {"C02", "C14-r4", "C12-r6", "C04-r7", "C06-r7", "C09-r8", "C14-r8"}  # float re-arrangement of the auto-off arithmetic; duration text via strftime().lstrip("0"); "bits strictly ascending"; CRC recovered with str.replace; gate by the declared length: exit 2 by the unknown-form policy
 
 
+ONLY = next((a.split("=", 1)[1].split(",") for a in sys.argv[1:] if a.startswith("--props=")), None)
+
+
+def expected_rc(entry, prop):
+    if (entry.get("expect_map") or {}).get(prop) == "undecided":
+        return 2
+    return 1 if entry["expect"] == "violation" and prop in entry["properties"] else 0
+
+
+def compare_only(ids, results):
+    cur = {e["id"]: e for e in json.load(open(os.path.join(HERE, "sa/selftest/variants/seeded.json")))}
+    diff = 0
+    for sid in ids:
+        e, res = cur.get("seed-" + sid), results[sid]
+        if e is None or res is None:
+            print("NOT-RECORDED", sid)
+            diff += 1
+            continue
+        for prop, rc in res.items():
+            if rc != expected_rc(e, prop):
+                print("DIFF", sid, prop, "recorded", expected_rc(e, prop), "observed", rc)
+                diff += 1
+    print("compared", len(ids), "changes x", ONLY, "differences", diff)
+    return 1 if diff else 0
+
+
 def run_one(sid):
     d = os.path.join(HERE, "seeded", sid)
     root = tempfile.mkdtemp(prefix="seedreg_")
@@ -33,7 +62,7 @@ def run_one(sid):
             if p.returncode:
                 return sid, None
         res = {}
-        for prop in PROPS:
+        for prop in ONLY or PROPS:
             q = subprocess.run(["/venv/bin/python", "-m", "sa.check", prop], cwd=HERE, env={**os.environ, "SA_REPO": root, "SA_EVIDENCE_DIR": os.path.join(root, "_evidence")}, capture_output=True, text=True)
             res[prop] = q.returncode
         return sid, res
@@ -47,6 +76,8 @@ def main():
     ids = args or sorted(os.listdir(os.path.join(HERE, "seeded")))
     with ThreadPoolExecutor(max_workers=14) as ex:
         results = dict(ex.map(run_one, ids))
+    if ONLY:
+        return compare_only(ids, results)
     out, bad = [], []
     for sid in ids:
         res = results[sid]
@@ -83,6 +114,13 @@ def main():
     if write and not bad and not args:
         json.dump(out, open(os.path.join(HERE, "sa/selftest/variants/seeded.json"), "w"), indent=1)
         print("written", len(out))
+    elif "--merge" in sys.argv and args and not bad:
+        path = os.path.join(HERE, "sa/selftest/variants/seeded.json")
+        cur = {e["id"]: e for e in json.load(open(path))}
+        for e in out:
+            cur[e["id"]] = e
+        json.dump([cur[k] for k in sorted(cur, key=lambda i: i[len("seed-"):])], open(path, "w"), indent=1)
+        print("merged", len(out), "total", len(cur))
     return 1 if bad else 0
 
 
